@@ -191,6 +191,23 @@ def s7(ctx):
                           or (e.kind == 'SETITEM' and any(x.k == 'selfattr' for x in values_in(e.d['base'])))]
                 if not stored:
                     ok, why, wit = False, 'creates a container without storing it under its name', fmt_trace(tr)
+                # ... in the very table that was consulted
+                looked = set()
+                for e in tr:
+                    vals = []
+                    if e.kind == 'RAISE' and e.d.get('at') == 'subscript':
+                        vals = [y for y in _subscript_bases(e.node)]
+                    elif e.kind == 'TEST':
+                        vals = [x.a[1] for x in values_in(e.d['val']) if x.k == 'selfattr']
+                    elif e.kind == 'MCALL' and e.d['name'] in ('get',) and e.d.get('recv') is not None \
+                            and e.d['recv'].k == 'selfattr':
+                        vals = [e.d['recv'].a[1]]
+                    looked.update(vals)
+                tables = {x.a[1] for e in stored for x in values_in(e.d['base']) if x.k == 'selfattr'}
+                if looked and tables and not (tables & looked):
+                    ok, why, wit = False, 'stores the new container in %s although it looked the name up in %s: the ' \
+                        'next lookup misses it (and another kind of container finds it)' % (sorted(tables), sorted(looked)), \
+                        fmt_trace(tr)
             else:
                 nreuse += 1
                 if not _memo_derived(p.outcome[1], tr):
@@ -198,6 +215,16 @@ def s7(ctx):
         obs.append(Ob('S7', 'FanoutCache.%s/one-handle-per-name' % name, ok and ncreate > 0 and nreuse > 0,
                       'FanoutCache.%s %s' % (name, why or 'has no create path or no reuse path'), f.loc(), wit))
     return obs
+
+
+def _subscript_bases(node):
+    """Attribute names of `self.<attr>[...]` / `<alias>[...]` subscripts in an expression (for KeyError lookups)."""
+    out = []
+    for n in ast.walk(node):
+        if isinstance(n, ast.Subscript) and isinstance(n.value, ast.Attribute) and isinstance(n.value.value, ast.Name) \
+                and n.value.value.id == 'self':
+            out.append(n.value.attr)
+    return out
 
 
 def _plain_truth(v):
